@@ -150,6 +150,35 @@ def run_skrifa(chk, facts, cfg):
     chk.ob("C02-c", "Engine::run: every dispatch is followed by the MAX_RUN_INSTRUCTIONS test", ok, key="run|budget", file=rn.file, line=rn.lo, fn=rn.path,
            detail="the interpreter's main loop must stop after a bounded number of instructions")
 
+    # looped instructions (SHPIX, IP, FLIPPT, ALIGNRP, ..) run graphics.loop_counter times inside ONE dispatched instruction, out of
+    # reach of the run / jump budgets: every value ever stored into the counter must be small
+    from ..intervals import Intervals
+    GS = H + "graphics::GraphicsState"
+    lcw = field_writers(facts, (SK,), GS, "loop_counter")
+    for b, bb, st in lcw:
+        iv = Intervals(b)
+        j = b.blocks[bb].stmts.index(st)
+        stt = iv.state_before_stmt(bb, j) if iv.converged else None
+        r = None
+        if stt is not None and st[2][0] == "use":
+            r = iv.rng(stt, st[2][1])
+        elif stt is not None and st[2][0] == "cast":
+            a = iv.rng(stt, st[2][2])
+            r = a if (a is not None and 0 <= a[0] and a[1] < (1 << 32)) else (0, (1 << 32) - 1)
+        ok = stt is None or (r is not None and 0 <= r[0] and r[1] <= 0xFFFF)
+        chk.ob("C02-c", f"{b.path.split('::')[-1]} line {st[3][0]}: loop_counter = value in {r}", ok, key=f"loop-counter|{b.path}",
+               file=b.file, line=st[3][0], fn=b.path,
+               detail=f"a looped instruction iterates loop_counter times without charging any budget; the stored value has range {r}, "
+                      f"expected at most 0xFFFF (FreeType's clamp)")
+    chk.floor("C02-c", "writers of GraphicsState.loop_counter", len(lcw), 3)
+    for b in facts.all_bodies(SK):
+        for bb, j, st in b.stmts():
+            if st[0] == "A" and st[2][0] in ("ref", "raw") and (st[2][1] == "mut" or "Mut" in str(st[2][1])) and st[2][2][1]:
+                last = st[2][2][1][-1]
+                if isinstance(last, list) and last[0] == "f" and last[2] == "loop_counter" and len(last) > 3 and last[3] == GS:
+                    chk.ob("C02-c", f"{b.path}: &mut graphics.loop_counter", False, key=f"loop-counter-borrow|{b.path}", file=b.file,
+                           line=st[3][0], fn=b.path, detail="the loop counter is handed out by mutable reference: its writers cannot be enumerated")
+
     # ---- C02-e -----------------------------------------------------------------------------------
     chk.rule("C02-e", "T-ERR/T-GUARD: scratch memory constructors' None becomes InsufficientMemory; alloc_slice splits only after "
                       "its length test on the same (aligned) buffer")
